@@ -22,7 +22,6 @@ theorem jumpDiffusivity_add (s₁ s₂ a dims n t : ℚ) :
   unfold Gen.jumpDiffusivity
   ring
 
-
 /-! ### rates -/
 
 theorem rateMean_eq (m sd nF T P : ℚ) : Gen.rateMean m sd nF T P = m / (nF * (T / P)) := by
@@ -40,16 +39,12 @@ theorem rateMean_times_time (total nF T P sd : ℚ) (hn : nF ≠ 0) (hT : T ≠ 
   unfold Gen.rateMean
   field_simp
 
-theorem rates_count_per_part : Gen.ratesCountPerPart = true := by
-  rfl
-
 /-- the time parts are analysed with the same conversion method and minimal residence as the whole -/
 theorem split_forwards_settings : Gen.splitForwardsSettings = true := by
   rfl
 
 theorem jump_distances_in_simulation_cell : Gen.jumpDistancesInSimulationCell = true := by
   rfl
-
 
 /-! ### jump graph: activation energy of an edge and the energy limits -/
 
@@ -75,9 +70,5 @@ theorem edgeKept_iff (n o t l k q lo hi : ℚ) :
     exact ⟨by have : ((-l * k) / q) = -(l * k) / q := by ring
               linarith [h1, this.le, this.ge], by have : ((-l * k) / q) = -(l * k) / q := by ring
                                                   linarith [h2, this.le, this.ge]⟩
-
-theorem limits_default_to_unbounded : Gen.limitsDefaultToUnbounded = true := rfl
-
-theorem graph_inputs_from_this_analysis : Gen.graphInputsFromThisAnalysis = true := rfl
 
 end G.C05Gen
